@@ -20,6 +20,7 @@ type params struct {
 	bfsDepth  int   // diffs in a BFS chain
 	walkDepth int   // diffs in a physical walk
 	walkLines []int // the walk universe is the empty file and the one-line files of these source lines
+	skewMaxLines int // serial skew: pure-deletion pairs whose file A has at most this many source lines
 }
 
 // ---------------------------------------------------------------- findings
@@ -154,6 +155,12 @@ type counters struct {
 	MaxDiffLines             int64
 	Sessions, Resets         int64
 	Skew                     int64
+	Input, InputNontrivial   int64 // input failure modes / encodings; of those, with a valid line delivered before the trouble
+	InputMustFail            int64
+	InputMustOK, InputEither int64
+	InputEitherAccepted      int64
+	Bulk, BulkFaulty         int64
+	StrictFaulty             int64
 }
 
 const dnsfixSerial = 1234567 // == dnsfix.Serial (checked in main)
